@@ -14,6 +14,7 @@
 -/
 namespace Influx.Model.Engine
 
+/-- timestamps (ns) and values are plain `Int`s (`TS`, `Val` are documentation names only) -/
 abbrev TS := Int
 abbrev Val := Int
 
@@ -21,21 +22,21 @@ abbrev Val := Int
 structure Key where
   series : Nat
   field : Nat
-deriving DecidableEq, Repr, BEq
+deriving DecidableEq, Repr
 
 structure Entry where
   key : Key
-  ts : TS
-  val : Val
+  ts : Int
+  val : Int
 deriving DecidableEq, Repr
 
 /-- A log: points in write order (oldest first). -/
 abbrev Log := List Entry
 
-abbrev Pt := TS × Val
+abbrev Pt := Int × Int
 
 /-- Last-write-wins lookup in a log. -/
-def Log.get : Log → Key → TS → Option Val
+def Log.get : Log → Key → Int → Option Int
   | [], _, _ => none
   | e :: l, k, t =>
     match Log.get l k t with
@@ -61,22 +62,19 @@ def mergeOver (a b : List Pt) : List Pt := b.foldl (fun acc p => insertPt p acc)
 def dedup (l : List Pt) : List Pt := mergeOver [] l
 
 /-- first match in a (sorted) point list -/
-def lookupPt (t : TS) : List Pt → Option Val
+def lookupPt (t : Int) : List Pt → Option Int
   | [] => none
   | q :: l => if q.1 = t then some q.2 else lookupPt t l
 
 /-- last match in a point list in write order -/
-def lastPt (t : TS) : List Pt → Option Val
+def lastPt (t : Int) : List Pt → Option Int
   | [] => none
   | q :: l => match lastPt t l with
     | some v => some v
     | none => if q.1 = t then some q.2 else none
 
 /-- strictly ascending timestamps -/
-def SortedPts : List Pt → Prop
-  | [] => True
-  | [_] => True
-  | p :: q :: l => p.1 < q.1 ∧ SortedPts (q :: l)
+def SortedPts (l : List Pt) : Prop := l.Pairwise (fun a b => a.1 < b.1)
 
 /-- The de-duplicated, sorted values of key `k` in log `l`. -/
 def Log.values (l : Log) (k : Key) : List Pt := dedup (l.pts k)
